@@ -26,7 +26,8 @@ func kindOf(s string) balance.BalanceType {
 	return balance.BalanceType(n)
 }
 
-var kindNames = map[string]string{"2b": "Token", "2c": "Allowed", "2d": "Given", "2e": "TokenLocked"}
+var kindNames = map[string]string{"2b": "Token", "2c": "Allowed", "2d": "Given", "2e": "TokenLocked",
+	"2f": "AllowedLocked", "31": "AllowedExternalLocked", "32": "TokenExternalLocked"}
 
 // apply runs f on a fresh simulated transaction — directly on the peer stub (mode d), or through
 // the batch and transaction cache layers (mode b) — and commits on success.
@@ -155,7 +156,9 @@ func genC16(c *Cfg, emit func([]string)) {
 	}
 	addrs := []string{"alice", "bob", "carol"}
 	tokens := []string{"USD", "EUR", "VT_g1"}
-	kinds := []string{"2b", "2c", "2d", "2e"}
+	kinds := []string{"2b", "2c", "2d", "2e", "2f", "31", "32"} // all seven balance kinds
+	// amounts whose big-endian bytes happen to be text: digits, "10", "-1", "{}", `""`, "[]", "true", "null"
+	textual := []string{"48", "52", "57", "12592", "11569", "31613", "8738", "23389", "1953658213", "1853189228"}
 	pick := func(xs []string) string { return xs[c.Rng.Intn(len(xs))] }
 	check := func(h []string) []string {
 		for _, k := range kinds {
@@ -174,7 +177,11 @@ func genC16(c *Cfg, emit func([]string)) {
 		if legacy {
 			// balances written before indexing existed: primaries only
 			for j := 0; j < 2+c.Rng.Intn(6); j++ {
-				h = append(h, fmt.Sprintf("legacy %s %s %s %d", pick(kinds), pick(addrs), pick(tokens), 1+c.Rng.Intn(50)))
+				am := fmt.Sprint(1 + c.Rng.Intn(50))
+				if c.Rng.Intn(4) == 0 {
+					am = pick(textual)
+				}
+				h = append(h, fmt.Sprintf("legacy %s %s %s %s", pick(kinds), pick(addrs), pick(tokens), am))
 			}
 			// sometimes ordinary writes of the same kinds come first (a chaincode upgraded to the
 			// indexing version keeps working before the migration call is made)
@@ -245,6 +252,6 @@ func genC16(c *Cfg, emit func([]string)) {
 		h = append(h, "owners "+bk[0]+" USD", "owners "+bk[0]+" EUR")
 		emit(h)
 	}
-	c.Rule = fmt.Sprintf("%d random histories of 3..%d add/sub/move operations (amounts incl. 0, -1, exactly-to-zero and back) over 3 addresses x 3 tokens (+ token-less balances) x 4 balance kinds, each executed either directly on the peer stub or through the batch+transaction cache layers; one third start from legacy data (primaries only), sometimes followed by ordinary writes, then createIndex for every kind; ListOwnersByToken compared with direct reads of every (kind, token, address) after random steps and for the full matrix at the end; createIndex's ledger diff restricted to balance keys; plus legacy data sets of 500..2000 records of one kind indexed at once and listed in full. non-trivial = contains a mutation; distinct = sha256", nHist, maxSteps+2)
+	c.Rule = fmt.Sprintf("%d random histories of 3..%d add/sub/move operations (amounts incl. 0, -1, exactly-to-zero and back) over 3 addresses x 3 tokens (+ token-less balances) x all 7 balance kinds, each executed either directly on the peer stub or through the batch+transaction cache layers; one third start from legacy data (primaries only; amounts also such that their stored bytes are digits, brackets or words), sometimes followed by ordinary writes, then createIndex for every kind; ListOwnersByToken compared with direct reads of every (kind, token, address) after random steps and for the full matrix at the end; createIndex's ledger diff restricted to balance keys; plus legacy data sets of 500..2000 records of one kind indexed at once and listed in full. non-trivial = contains a mutation; distinct = sha256", nHist, maxSteps+2)
 	c.Extra = map[string]any{"histories": nHist}
 }
